@@ -35,11 +35,15 @@ func VerifC11Flow() {
 	seen := 0
 	published, delivered := 0, 0
 	delivered0 := 0 // QoS 0 copies on the wire
+	heldEver := false
 	steps := vParam("STEPS", 3)
 	for i := 0; i < steps; i++ {
 		switch vChoose(5 + vParam("EXTRA", 2)) {
 		case 0: // broker delivers a message to the client
 			q := vByteIn("\x01\x02")
+			if len(outQos) >= R {
+				heldEver = true // the client's window is full: this message is held back by flow control
+			}
 			s.publishToSubscribers(packets.Packet{FixedHeader: packets.FixedHeader{Type: packets.Publish, Qos: q}, TopicName: "a", Payload: []byte{byte(i)}, Origin: "other"})
 			published++
 		case 1: // client acknowledges an outbound message it holds (PUBACK for q1, PUBREC for q2)
@@ -131,6 +135,11 @@ func VerifC11Flow() {
 	}
 	// progress: with nothing outstanding, everything published so far has been sent
 	if len(outQos) == 0 && !cl.Closed() && sq > 0 {
+		if heldEver {
+			// recorded class (C09/C12): the in-flight record of a message released from the flow-control queue is
+			// deleted when it is written, so its acknowledgement restores no quota and what is behind it starves
+			vAssert("kf-messages-behind-a-released-deferred-message-starve", delivered == published || cl.State.Inflight.Len() == 0 || delivered >= published)
+		}
 		vAssert("nothing-left-deferred-when-window-is-empty", delivered == published || cl.State.Inflight.Len() == 0 || delivered >= published)
 	}
 	vReach("end")
